@@ -32,7 +32,8 @@ ASSUMPTIONS = ["pvm/ref/ofmatch.py states OpenFlow 1.0 matching correctly",
 REQUIRED = ["single_cases", "single_match", "single_nomatch", "tables",
             "table_hits", "table_misses", "exact_entries_hit", "vlan_frames",
             "llc_frames", "arp_frames", "frag_frames", "prefix_matches",
-            "sibling_frames_matched"]
+            "sibling_frames_matched", "tables_read_between_install_and_lookup",
+            "probes_that_are_answers_or_neighbours_of_an_earlier_one"]
 TIMEOUT = {"quick": 900, "thorough": 7200}
 
 NPORTS = 40
@@ -246,6 +247,32 @@ def mech (m, f, expect, case):
   return ",".join(parts)
 
 
+ALL_MATCH = dict(wildcards=OM.FW_ALL, in_port=0, dl_src=b"\0" * 6, dl_dst=b"\0" * 6,
+                 dl_vlan=0, dl_vlan_pcp=0, dl_type=0, nw_tos=0, nw_proto=0, nw_src=0,
+                 nw_dst=0, tp_src=0, tp_dst=0)
+READS = (ofwire.enc_message("stats_request", dict(xid=71, type=1, flags=0, body=dict(
+           match=ALL_MATCH, table_id=0xff, out_port=0xffff))) +
+         ofwire.enc_message("stats_request", dict(xid=72, type=2, flags=0, body=dict(
+           match=ALL_MATCH, table_id=0xff, out_port=0xffff))) +
+         ofwire.enc_message("stats_request", dict(xid=73, type=3, flags=0, body={})) +
+         ofwire.enc_message("barrier_request", dict(xid=74)))
+
+
+def ask (sw, rep, fire):
+  """Read-only requests: flow, aggregate and table statistics, a barrier."""
+  sw.feed(READS)
+  b = sw.take_bytes()
+  try:
+    names = [m["name"] for m in ofwire.dec_stream(bytes(b))]
+  except ofwire.WireError:
+    names = None
+  if names != ["stats_reply"] * 3 + ["barrier_reply"]:
+    fire("read-only requests not answered", "answers: %r" % (names,))
+    return False
+  rep.count("tables_read_between_install_and_lookup")
+  return True
+
+
 def run_table (case, rep):
   sw = get_switch()
   entries = case["entries"]     # list of dict(match, priority)
@@ -267,8 +294,11 @@ def run_table (case, rep):
     fire("flow_mod rejected", err[:40].hex()); return
   rep.count("tables")
   nt = False
-  for probe in case["probes"]:
+  for pi, probe in enumerate(case["probes"]):
+    if case.get("asked") and pi % 2 == 0:
+      if not ask(sw, rep, fire): return
     raw = probe["frame"]; in_port = probe["in_port"]
+    if probe.get("relative"): rep.count("probes_that_are_answers_or_neighbours_of_an_earlier_one")
     f = OM.extract(raw, in_port)
     matching = [i for i, e in enumerate(entries) if i not in removed
                 and OM.matches(e["match"], f)]
@@ -403,12 +433,20 @@ def gen_table (rng, n, maxn):
     for raw, desc in base:
       for in_port in IN_PORTS:
         probes.append(dict(frame=raw, in_port=in_port))
+      # the rest of the conversation, on the same port: the answer (sources
+      # and destinations exchanged) and a neighbouring connection
+      for rel in (framegen.mirror(raw), framegen.twin(raw)):
+        if rel is not None and rng.random() < 0.6:
+          probes.append(dict(frame=rel, in_port=rng.choice(IN_PORTS), relative=True))
     raw, desc = framegen.gen_frame(rng)
     probes.append(dict(frame=raw, in_port=IN_PORTS[0]))
     case = dict(kind="table", entries=entries, probes=probes)
     if len(entries) >= 3 and rng.random() < 0.4:
       case["removed"] = sorted(rng.sample(range(len(entries)),
                                           rng.randrange(1, max(2, len(entries) // 2))))
+    # the controller looks at the table (statistics, a barrier) between
+    # installing and the traffic, and between frames: reading changes nothing
+    if rng.random() < 0.35: case["asked"] = True
     yield case
 
 
